@@ -274,6 +274,30 @@ def rules(P, R, prefix="C13"):
                 resets = [n for n in sure_subnodes(body) if n["k"] == "mcall" and n["name"] == "reset"]
                 R.judge(bool(resets), prefix + ".E3", key(sr, "retry timer re-armed on every path" + tag), body["sp"], "", "the timer arm can leave without re-arming the retry timer")
 
+        # ---------------- E6 the best-effort sender the sync path relies on
+        from ..common import simple_sender_rules
+        simple_sender_rules(prog, env, R, prefix + ".E6", tag)
+
+        # ---------------- E3b pending requests are garbage-collected only when gc_depth rounds old
+        if sr is not None:
+            ctx = env.ctx(sr)
+            flow = env.flow(sr)
+            rem = [n for n in sr.nodes() if n["k"] == "mcall" and n["name"] in ("retain", "clear", "drain") and ctx.term(n["recv"]) == "self.pending"]
+            R.floor(prefix + ".E3", len(rem), 1, "garbage collection of pending batch requests" + tag)
+            for i, n in enumerate(rem):
+                pc = flow.pathcond(n)
+                need = Not(cmp_formula("<", "self.round", "self.gc_depth"))
+                okg, _ = implies(pc, need)
+                bound = None
+                clo = n["args"][0] if n["args"] and n["args"][0]["k"] == "closure" else None
+                bt = ctx.term(clo["body"]) if clo is not None else ""
+                gc_vars = [x for x in sr.nodes() if x["k"] == "slet" and x["pat"].get("k") == "pbind" and x["pat"].get("name", "").startswith("gc") and "init" in x]
+                okb = any(ctx.term(x["init"]) == "(self.round-self.gc_depth)" for x in gc_vars)
+                R.judge(okg and okb, prefix + ".E3", key(sr, "requests are dropped only when older than gc_depth rounds" + tag, i), n["sp"],
+                        "%s ; bound %s" % (show(pc), [ctx.term(x["init"]) for x in gc_vars]),
+                        "pending batch requests are garbage-collected under `%s` with bound %s (required: only when round >= gc_depth, bound = round - "
+                        "gc_depth): young requests are cancelled and never retried" % (show(pc), [ctx.term(x["init"]) for x in gc_vars]))
+
         # ---------------- E4 one store
         nn = prog.fn("node::node::Node::new")
         if R.judge(nn is not None, prefix + ".E4", "anchor Node::new" + tag, "", "", "anchor-missing", reason="anchor-missing"):
